@@ -29,6 +29,9 @@ type RefHop struct {
 	RTT     time.Duration
 	TagID   int
 	ReadAt  time.Duration
+	// NoRTT: a TCP SYN-ACK/RST without per-probe identifier was credited to a later probe than the one that
+	// caused it (the stated caveat); its RTT is necessarily measured against that later probe and is not asserted
+	NoRTT bool
 }
 
 // RefInfo carries what the reference learnt on the way.
@@ -116,7 +119,7 @@ func Reference(sc *Scenario, o *Outcome, idx int) ([]RefHop, *RefInfo) {
 		h := &hops[t]
 		if !h.Present || (!h.IsDest && dest) {
 			a, _ := netip.ParseAddr(tg.Responder)
-			*h = RefHop{TTL: t, Present: true, Addr: a, IsDest: dest, RTT: e.Arr - st, TagID: tg.ID, ReadAt: e.At}
+			*h = RefHop{TTL: t, Present: true, Addr: a, IsDest: dest, RTT: e.Arr - st, TagID: tg.ID, ReadAt: e.At, NoRTT: isDirectTCP(tg.Form) && t != tg.CausedBy}
 		}
 		if sc.Serial() && dest {
 			break // the serial engine stops at the first destination reply
@@ -205,7 +208,7 @@ func CheckRun(sc *Scenario, o *Outcome) ([]Diff, *RefInfo) {
 				ds = append(ds, Diff{"C04", "dest-flag", fmt.Sprintf("hop TTL %d (%s) IsDest=%v, reference %v (reply #%d)", h.TTL, a, h.IsDest, r.IsDest, r.TagID)})
 			}
 			want := float64(r.RTT) / float64(time.Millisecond)
-			if h.RTT < 0 || math.Abs(h.RTT-want) > float64(tol)/float64(time.Millisecond) {
+			if h.RTT < 0 || (!r.NoRTT && math.Abs(h.RTT-want) > float64(tol)/float64(time.Millisecond)) {
 				ds = append(ds, Diff{"C05", "rtt", fmt.Sprintf("hop TTL %d RTT %.3f ms, probe sent at %v and first accepted reply #%d arrived at %v => %.3f ms (tolerance %v)", h.TTL, h.RTT, info.SendAt[r.TTL], r.TagID, info.SendAt[r.TTL]+r.RTT, want, tol)})
 			}
 		}
@@ -285,9 +288,12 @@ func CheckEmission(sc *Scenario, o *Outcome) []Diff {
 	seenTTL := map[int]bool{}
 	idents := map[string]int{}
 	var flow string
+	// the first destination reply the reference accepted (not merely read: e.g. a Paris-mode SYN-ACK for an
+	// earlier probe is read and legitimately ignored)
 	var firstDestRead time.Duration = -1
-	for _, e := range w.Reads(0) {
-		if e.Tag.Class == "genuine" && e.Tag.IsDestForm && e.Tag.FromTarget {
+	_, rinfo := Reference(sc, o, 0)
+	for _, e := range rinfo.Accepted {
+		if e.Tag.IsDestForm && e.Tag.FromTarget {
 			firstDestRead = e.At
 			break
 		}
